@@ -31,6 +31,7 @@ from typing import TYPE_CHECKING, NamedTuple, NewType, Protocol
 from kopf._cogs.aiokits import aiotasks, aiotoggles
 from kopf._cogs.clients import watching
 from kopf._cogs.configs import configuration
+from kopf._cogs.helpers import veriftrace
 from kopf._cogs.structs import bodies, references
 
 logger = logging.getLogger(__name__)
@@ -203,6 +204,9 @@ async def watcher(
                 # Feed the worker, as fast as possible, no extra activities.
                 streams[key].pressure.set()  # interrupt current sleeps, if any.
                 await streams[key].backlog.put(raw_event)
+                if veriftrace.enabled:
+                    veriftrace.emit('q.put', res=resource.plural, uid=key[1], rv=get_version(raw_event),
+                                    type=raw_event.get('type'), qlen=streams[key].backlog.qsize())
             except KeyError:
 
                 # Block the operator's readiness for individual resource's index handlers.
@@ -229,6 +233,9 @@ async def watcher(
                         streams=streams,
                         key=key,
                     ))
+                if veriftrace.enabled:
+                    veriftrace.emit('q.new', res=resource.plural, uid=key[1], rv=get_version(raw_event),
+                                    type=raw_event.get('type'), present=key in streams)
 
     except asyncio.CancelledError:
         if worker_error is None:
@@ -313,12 +320,17 @@ async def worker(
                 # "break" and "finally", so that the queue is not populated again.
                 # TODO: LATER: Test the described scenario. I have found no ways to simulate
                 #  a timeout while the queue is filled -- neither with pure Python nor with mocks.
+                if veriftrace.enabled:
+                    veriftrace.emit('q.timeout', res=key[0].plural, uid=key[1], empty=backlog.empty())
                 if backlog.empty():
                     break
                 else:
                     continue
 
             # Exit gracefully and immediately on the end-of-stream marker sent by the watcher.
+            if veriftrace.enabled:
+                veriftrace.emit('q.get', res=key[0].plural, uid=key[1], rv=get_version(raw_event),
+                                eos=isinstance(raw_event, EOS), qlen=backlog.qsize())
             if isinstance(raw_event, EOS):
                 break  # out of the worker.
 
@@ -335,6 +347,10 @@ async def worker(
 
             # Process the event. It might include sleeping till the time of consistency assumption
             # (i.e. ignoring that the patched version was not received and behaving as if it was).
+            if veriftrace.enabled:
+                veriftrace.emit('q.proc.begin', res=key[0].plural, uid=key[1], rv=get_version(raw_event),
+                                type=raw_event.get('type'), ctime=consistency_time,
+                                expected=expected_version, pressure=pressure.is_set())
             newer_patch_version = await processor(
                 raw_event=raw_event,
                 stream_pressure=pressure,
@@ -344,6 +360,9 @@ async def worker(
             )
 
             # With every new PATCH API call (if done), restart the consistency waiting.
+            if veriftrace.enabled:
+                veriftrace.emit('q.proc.end', res=key[0].plural, uid=key[1], rv=get_version(raw_event),
+                                patched=newer_patch_version)
             if newer_patch_version is not None and settings.persistence.consistency_timeout:
                 expected_version = newer_patch_version
                 consistency_time = loop.time() + settings.persistence.consistency_timeout
@@ -361,6 +380,8 @@ async def worker(
             del streams[key]
         except KeyError:
             pass  # already absent
+        if veriftrace.enabled:
+            veriftrace.emit('q.exit', res=key[0].plural, uid=key[1], qlen=backlog.qsize())
 
         # Notify the depletion routine about the changes in the workers'/streams' overall state.
         # * This should happen STRICTLY AFTER the removal from the streams[], and
